@@ -240,6 +240,8 @@ pub struct Expect {
     pub empty_stars: usize,
     /// explicit EMPTY alternatives taken
     pub empty_alts: usize,
+    /// ... of which in explicit vector-shaped rules (`A: A B | B | EMPTY` / `A: B A | B | EMPTY`)
+    pub empty_alts_vec: usize,
 }
 
 pub struct Deriver<'a> {
@@ -289,6 +291,13 @@ impl<'a> Deriver<'a> {
         let alt = alts[ai].clone();
         if alt.items.is_empty() {
             ex.empty_alts += 1;
+            let me = Sym::N(r);
+            let vec_shaped = alts.len() == 3
+                && alts.iter().any(|a| a.items.len() == 2 && a.items.iter().any(|i| i.sym == me && i.rep.is_none()))
+                && alts.iter().any(|a| a.items.len() == 1 && a.items[0].sym != me);
+            if vec_shaped {
+                ex.empty_alts_vec += 1;
+            }
         }
         let lean = depth > 4 || out.len() > 10;
         for it in &alt.items {
@@ -373,6 +382,7 @@ pub fn gen_ast(rng: &mut Rng) -> AstG {
     let mut rules = vec![];
     // fence of the listed finding duplicate-kind-type-names: a production kind is used once per grammar
     let mut kinds_used: Vec<&str> = vec![];
+    let mut sep_of: BTreeMap<Sym, Option<usize>> = BTreeMap::new();
     for i in 0..n {
         let name = RULE_NAMES[i].to_string();
         let shape = rng.below(10);
@@ -410,16 +420,15 @@ pub fn gen_ast(rng: &mut Rng) -> AstG {
             for _ in 0..ln {
                 let mut sym = if rng.chance(0.55) { Sym::T(rng.below(nplain)) } else { Sym::N(rng.below(n)) };
                 let r = rng.below(100);
+                // fence of the listed C09 finding sep-helper-name: all + / * uses of one symbol carry the same
+                // separator setting (the helper rule is named without the separator)
+                let mut sep_for = |sym: Sym, rng: &mut Rng| -> Option<usize> { *sep_of.entry(sym).or_insert_with(|| if comma.is_some() && rng.chance(0.25) { comma } else { None }) };
                 let mut rep = if r < 12 {
                     Some(('?', None))
-                } else if r < 22 {
-                    Some(('*', None))
-                } else if r < 32 {
-                    Some(('+', None))
-                } else if r < 37 && comma.is_some() {
-                    Some(('+', comma))
-                } else if r < 40 && comma.is_some() {
-                    Some(('*', comma))
+                } else if r < 26 {
+                    Some(('*', sep_for(sym, rng)))
+                } else if r < 40 {
+                    Some(('+', sep_for(sym, rng)))
                 } else {
                     None
                 };
